@@ -203,6 +203,121 @@ def a4_absmax(run: Run, cy: CyProgram, prog: Program):
     run.floor("A4 running-absmax sites", n, 1)
 
 
+_MUTABLE_MAKERS = ("list", "dict", "set", "np.zeros", "np.ones", "np.empty", "np.array",
+                   "np.arange", "np.full", "np.zeros_like", "np.empty_like",
+                   "np.ones_like", "numpy.zeros", "numpy.ones", "numpy.empty",
+                   "numpy.array", "numpy.arange", "numpy.full")
+_INPLACE_METHODS = ("append", "extend", "insert", "sort", "fill", "pop", "remove",
+                    "update", "add", "clear", "reverse")
+
+
+def a6_loop_alias(run: Run, prog: Program, rule="A6", files=C10_FILES):
+    """Per-iteration work objects are fresh: inside a loop, `v = w` with `w` a
+    list/array built *before* the loop only binds a second name; a following
+    in-place change of `v` (`v += ...`, v.append, v[...] = ...) changes `w` for
+    every later iteration (the estimator then conditions on / sums over what
+    the earlier iterations left behind)."""
+    n = 0
+    for f in prog.functions():
+        if not any(p in f.module.relpath for p in files):
+            continue
+        loops = [l for l in ast.walk(f.node) if isinstance(l, (ast.For, ast.While))]
+        if not loops:
+            continue
+        # all plain definitions of every local
+        defs = {}
+        for st in ast.walk(f.node):
+            if isinstance(st, ast.Assign):
+                for t in st.targets:
+                    if isinstance(t, ast.Name):
+                        defs.setdefault(t.id, []).append(st)
+        for L in loops:
+            inside = {id(x) for x in ast.walk(L)}
+            for st in ast.walk(L):
+                if not (isinstance(st, ast.Assign) and len(st.targets) == 1
+                        and isinstance(st.targets[0], ast.Name)
+                        and isinstance(st.value, ast.Name)):
+                    continue
+                v, w = st.targets[0].id, st.value.id
+                wdefs = defs.get(w, [])
+                if v == w or not wdefs or any(id(d) in inside for d in wdefs):
+                    continue
+                # the aliased object is mutable: a display / comprehension / maker
+                def mutable(e):
+                    if isinstance(e, (ast.List, ast.ListComp, ast.Dict, ast.DictComp,
+                                      ast.Set, ast.SetComp)):
+                        return True
+                    return isinstance(e, ast.Call) and \
+                        ast.unparse(e.func) in _MUTABLE_MAKERS
+                if not all(mutable(d.value) for d in wdefs):
+                    continue
+                n += 1
+                # in-place changes of v after the alias, inside the same loop,
+                # before v is rebound
+                hits = []
+                for x in ast.walk(L):
+                    if getattr(x, "lineno", 0) <= st.lineno:
+                        continue
+                    if isinstance(x, ast.AugAssign) and isinstance(x.target, ast.Name) \
+                            and x.target.id == v:
+                        hits.append(x)
+                    elif isinstance(x, ast.Call) and isinstance(x.func, ast.Attribute) \
+                            and isinstance(x.func.value, ast.Name) and \
+                            x.func.value.id == v and x.func.attr in _INPLACE_METHODS:
+                        hits.append(x)
+                    elif isinstance(x, (ast.Assign, ast.AugAssign)):
+                        tg = x.targets if isinstance(x, ast.Assign) else [x.target]
+                        for t in tg:
+                            if isinstance(t, ast.Subscript) and \
+                                    isinstance(t.value, ast.Name) and t.value.id == v:
+                                hits.append(x)
+                # other plain rebinding of v in the loop (v = fresh) between alias
+                # and mutation makes the mutation harmless: only count hits with
+                # no rebinding of v on lines in between
+                rebinds = [d.lineno for d in defs.get(v, []) if id(d) in inside
+                           and d is not st]
+                hits = [h for h in hits if not any(st.lineno < r <= h.lineno
+                                                   for r in rebinds)]
+                ok = not hits
+                run.oblige(rule, f"{f.qualname}:{v}={w}", ok, sample={
+                    "where": f"{f.module.relpath}:{st.lineno}"})
+                if not ok:
+                    run.add(rule, f"{f.qualname}/loop-alias/{w}",
+                            f"{f.module.relpath}:{hits[0].lineno}",
+                            f"{f.qualname}: `{v} = {w}` (line {st.lineno}) only aliases the "
+                            f"{type(wdefs[0].value).__name__.lower()} built before the loop, "
+                            f"and `{ast.unparse(hits[0])[:60]}` then changes it in place: "
+                            f"`{w}` keeps growing/changing over the iterations of the loop "
+                            f"at line {L.lineno}")
+    run.count(rule, n)
+
+
+def a5_layout(run: Run, prog: Program, cy: CyProgram, sites):
+    """The C estimators address their 2-D inputs row-major with the row length
+    the caller's shape gives them.  Re-uses C20's affine pointer analysis (every
+    access offset as a polynomial in loop counters and extents, every buffer's
+    shape in C parameter names from the Python call sites); C20 itself only
+    decides that the accesses are in bounds, which a transposed hand-over with
+    swapped extents still is."""
+    from . import rules_c20
+    sub = Run("C20", write=False, quiet=True, repo=run.repo)
+    try:
+        rules_c20.check(sub, prog, cy, sites)
+    except AnalysisError as ex:
+        run.unknowns.append(f"A5: the pointer analysis of C20 did not complete "
+                            f"({str(ex)[:120]}): layouts not decided")
+        return
+    n = 0
+    for o in getattr(sub, "layout", []):
+        if not any(p_ in o["file"] for p_ in ("climate/", "timeseries/", "funcnet/")):
+            continue
+        n += 1
+        run.oblige("A5", o["instance"], o["ok"], sample=o["sample"])
+        if not o["ok"]:
+            run.add("A5", o["key"], o["where"], o["message"])
+    run.floor("A5 strided accesses into non-square 2-D buffers", n, 10)
+
+
 def check(run: Run, prog: Program, cy: CyProgram, sites):
     run.rule("A1", "compiled estimators are called with the dtype/rank their "
              "signature demands (applicability of every estimator x option branch)")
@@ -210,6 +325,10 @@ def check(run: Run, prog: Program, cy: CyProgram, sites):
     run.rule("A3", "literal option values that flow into a validated parameter are "
              "accepted by the callee")
     run.rule("A4", "running absolute-maximum idiom is internally consistent")
+    run.rule("A6", "a name bound inside a loop to a list/array built before the loop "
+             "is not changed in place (work objects are fresh per iteration)")
+    run.rule("A5", "C estimators address 2-D inputs row-major with the row length of "
+             "the shape the caller hands over (C20's pointer analysis re-used)")
     run.explanation = (
         "Applicability clauses of C10 only: kernel-boundary typing, index typing, "
         "option flow, and consistency of the abs-max selection idiom. Numerical "
@@ -235,3 +354,5 @@ def check(run: Run, prog: Program, cy: CyProgram, sites):
                                           "climate/rainfall", "climate/havlin",
                                           "climate/hilbert", "timeseries/surrogates.py"))
     a4_absmax(run, cy, prog)
+    a5_layout(run, prog, cy, sites)
+    a6_loop_alias(run, prog)
